@@ -261,6 +261,15 @@ var entryNames = []string{"golden", "want.txt", "exp/out.golden", "stderr.golden
 var texts = []string{"hello out\n", "alpha\nbeta\n", "", "one two\n", "line\nwith $HOME\n", "warning: something\n", "\n\nblank lines around\n\n", "  indented  \n", "\n"}
 var actuals = []string{`hello out\n`, `alpha\nbeta\n`, `changed text\n`, `one two\n`, `no final newline`, `-- x --\nfoo\n`, `foo\n-- x --`, `cr\r\n`, "bad\xffutf8\\n", `>already quoted\n`, `a\n-- y --\nb\n`, "", `-- x --\n\xff\n`}
 
+func pathDir(p string) string {
+	if i := strings.LastIndex(p, "/"); i >= 0 {
+		return p[:i]
+	}
+	return "."
+}
+
+func pathBase(p string) string { return p[strings.LastIndex(p, "/")+1:] }
+
 func esc(s string) string {
 	return strings.NewReplacer("\n", `\n`, "\t", `\t`, "\r", `\r`).Replace(s)
 }
@@ -293,7 +302,7 @@ func genUpdate(t *rapid.T) updCase {
 	nfile := 0
 	for i := 0; i < nl; i++ {
 		e := rapid.SampledFrom(ents).Draw(t, "target")
-		switch rapid.IntRange(0, 9).Draw(t, "shape") {
+		switch rapid.IntRange(0, 10).Draw(t, "shape") {
 		case 0, 1, 2: // produce stdout (matching or not) and compare with an entry
 			act := rapid.SampledFrom(actuals).Draw(t, "actual")
 			if rapid.IntRange(0, 2).Draw(t, "match") == 0 {
@@ -323,6 +332,14 @@ func genUpdate(t *rapid.T) updCase {
 		case 8: // same entry twice
 			a1, a2 := rapid.SampledFrom(actuals).Draw(t, "a1"), rapid.SampledFrom(actuals).Draw(t, "a2")
 			lines = append(lines, "exec vmain emit -o "+q(a1), "cmp stdout "+e.name, "exec vmain emit -o "+q(a2), "cmp stdout "+e.name)
+		case 9: // compare from inside the entry's directory (or another one) after cd; paths relative to the new directory
+			if dir := pathDir(e.name); dir != "." {
+				act := rapid.SampledFrom(actuals).Draw(t, "actual")
+				lines = append(lines, "cd "+dir, "exec vmain emit -o "+q(act), "cmp stdout "+pathBase(e.name), "cd $WORK")
+			} else {
+				act := rapid.SampledFrom(actuals).Draw(t, "actual")
+				lines = append(lines, "mkdir elsewhere", "cd elsewhere", "exec vmain emit -o "+q(act), "cmp stdout ../"+e.name, "cd $WORK")
+			}
 		default:
 			lines = append(lines, rapid.SampledFrom([]string{"exists " + e.name, "# a phase comment", "", "! exists nosuchfile", "grep . " + e.name}).Draw(t, "filler"))
 		}
